@@ -141,6 +141,21 @@ func (valSet *ValidatorSet) Proposer() (proposer *Validator) {
 	return valSet.proposer.Copy()
 }
 
+// SetProposer restores the cached proposer of a set that came back from persistence: the cache is
+// unexported, so a decoded set would otherwise recompute the proposer from accums from which the
+// real proposer's share was already subtracted, and name another validator than a replica that
+// kept running. It reports whether address belongs to the set.
+func (valSet *ValidatorSet) SetProposer(address []byte) bool {
+	idx := sort.Search(len(valSet.Validators), func(i int) bool {
+		return bytes.Compare(address, valSet.Validators[i].Address) <= 0
+	})
+	if idx == len(valSet.Validators) || !bytes.Equal(valSet.Validators[idx].Address, address) {
+		return false
+	}
+	valSet.proposer = valSet.Validators[idx]
+	return true
+}
+
 func (valSet *ValidatorSet) Hash() []byte {
 	if len(valSet.Validators) == 0 {
 		return nil
